@@ -175,6 +175,8 @@ def r13_3_wrong_doc_first(facts, res):
     into the information set that may mutate (WrongDocumentErr before anything else)."""
     mm, _ = mutset.may_mutate_closure(facts)
     st = res.rule("R13-3b", instances=0)
+    st_c = res.rule("R13-3c", instances=0)
+    seen_c = set()
     for ty in ("XmlDocument", "XmlElement", "XmlAttr"):
         for meth in ("insert_before", "remove_child"):
             f = facts.fn("xml_dom::<%s as NodeMut>::%s" % (ty, meth))
@@ -182,9 +184,18 @@ def r13_3_wrong_doc_first(facts, res):
             blocks = facts.blocks(f)
             succ = e1.cfg(facts, f)
             dom, _p = e1.dominators(succ)
-            cmp_bbs = [bi for bi, t in facts.mir_calls(f) if t.get("callee") and
-                       re.search(r"PartialEq.*::(ne|eq)$|::ne$|::eq$", facts.callee_name(t["callee"])) and
-                       "XmlDocument" in (t["callee"].get("pathargs") or "")]
+            tests = owner_document_tests(facts, f)
+            cmp_bbs = [bi for bi, _t, _k in tests]
+            for bi, t, kind in tests:
+                st_c["instances"] += 1
+                ok_c = kind == "identity"
+                res.oblige(1, ok_c)
+                if not ok_c and (f["path"], "structural") not in seen_c:
+                    seen_c.add((f["path"], "structural"))
+                    res.add(Finding("R13-3c", f["path"], "%s decides `wrong document` with %s, i.e. by comparing the *content* of the two owner "
+                                    "documents: a node of another document with equal content passes the test and is moved across "
+                                    "documents instead of raising WrongDocumentErr" % (f["path"], facts.callee_name(t["callee"])),
+                                    f["file"], t.get("ln"), {}))
             mut_bbs = [bi for bi, t in facts.mir_calls(f) if t.get("callee") and
                        (facts.callee_id(t["callee"]) in mm or any(i in mm for i in facts.impls_of.get(t["callee"].get("id"), [])))]
             ok = bool(cmp_bbs) and bool(mut_bbs) and all(any(c in dom[m] for c in cmp_bbs) for m in mut_bbs)
@@ -193,6 +204,51 @@ def r13_3_wrong_doc_first(facts, res):
                 res.add(Finding("R13-3b", f["path"], "%s: the owner-document comparison does not dominate every call that "
                                 "may change the tree (comparisons in blocks %s, mutating calls in %s)" % (f["path"], cmp_bbs, mut_bbs),
                                 f["file"], f["line"], {}))
+
+
+def r13_3c_everywhere(facts, res):
+    """Every other owner-document comparison in xml_dom (set_attribute_node, fragments, named node maps ...)."""
+    st_c = res.rule("R13-3c")
+    done = {k.key for k in res.findings if k.rule == "R13-3c"}
+    for f in sorted(facts.fns.values(), key=lambda x: x["path"]):
+        if f["crate"] != "xml_dom" or "mir" not in f or f.get("derived"):
+            continue
+        if re.search(r"as NodeMut>::(insert_before|remove_child)$", f["path"]) and re.search(r"<Xml(Document|Element|Attr) as", f["path"]):
+            continue
+        for bi, t, kind in owner_document_tests(facts, f):
+            st_c["instances"] += 1
+            res.oblige(1, kind == "identity")
+            if kind != "identity" and f["path"] not in done:
+                done.add(f["path"])
+                res.add(Finding("R13-3c", f["path"], "%s decides `wrong document` with %s, i.e. by comparing the *content* of the two owner "
+                                "documents: a node of another document with equal content passes the test"
+                                % (f["path"], facts.callee_name(t["callee"])), f["file"], t.get("ln"), {}))
+    if st_c["instances"] < 10:
+        raise BrokenCheck("R13-3c: %d owner-document tests (floor 10)" % st_c["instances"])
+
+
+def owner_document_tests(facts, f):
+    """Call sites in f that compare two owner documents: [(bb, terminator, 'structural' | 'identity')].
+    structural: PartialEq on (Option<)XmlDocument - the derived eq goes through Rc<RefCell<..>> to the content;
+    identity:   a workspace predicate over two documents whose body calls Rc::ptr_eq and no PartialEq on documents."""
+    out = []
+    for bi, t in facts.mir_calls(f):
+        c = t.get("callee")
+        if not c:
+            continue
+        name = facts.callee_name(c)
+        pa = c.get("rpathargs") or c.get("pathargs") or ""
+        if re.search(r"PartialEq.*::(ne|eq)$|::ne$|::eq$", name) and "XmlDocument" in pa:
+            out.append((bi, t, "structural"))
+            continue
+        g = facts.fns.get(facts.callee_id(c))
+        if g is not None and g["crate"] == "xml_dom" and g.get("sig", "").count("XmlDocument") >= 2 and g["sig"].rstrip().endswith("-> bool") \
+                and "mir" in g:
+            names = [(x.get("callee") or {}).get("rpathargs") or (x.get("callee") or {}).get("pathargs") or "" for _b, x in facts.mir_calls(g)]
+            ptr = any(re.search(r"Rc::<.*>::ptr_eq$", n) for n in names)
+            struct = any(re.search(r"PartialEq", n) and "XmlDocument" in n for n in names)
+            out.append((bi, t, "identity" if ptr and not struct else "structural"))
+    return out
 
 
 def run(facts, tier):
@@ -204,7 +260,8 @@ def run(facts, tier):
         "item type, minus constructors of fresh items and non-observable bookkeeping) followed on some path by an error "
         "exit (`Err(..)`, `?`, or a tail-returned fallible call) that does not stem from the mutating call itself; "
         "R13-3 the DomException variants each mutator constructs are compared with the DOM Level 1 exception table, "
-        "OufOfIndex arms must map to NotFoundErr, and the owner-document test dominates every mutating call.")
+        "OufOfIndex arms must map to NotFoundErr, the owner-document test dominates every mutating call (R13-3b) and compares "
+        "identity, not content (R13-3c).")
     res.assumptions = ["unwind edges ignored; RefCell double-borrow panics (aliasing) not claimed",
                        "that a successful call performs exactly the DOM Level 1 change is not decided"]
     roots = entries.c13(facts)
@@ -218,6 +275,7 @@ def run(facts, tier):
     r13_2(facts, res, roots)
     r13_3(facts, res)
     r13_3_wrong_doc_first(facts, res)
+    r13_3c_everywhere(facts, res)
     import staleidx
     staleidx.rule(facts, res, "R13-4", lambda f: f["crate"] in ("xml_info", "xml_dom"), floor=7)
     return res
